@@ -24,6 +24,13 @@ class InvalidNameError(ValueError):
     def __init__(self, name: str, reason: str):
         message: str = f"Cannot split the following name `{name}` into parts: {reason}"
         super().__init__(message)
+        self.name = name
+        self.reason = reason
+
+    def __reduce__(self):
+        # The constructor takes (name, reason) rather than the message held in `args`,
+        # so the default copy/deepcopy/pickle protocol has to be told how to rebuild the error.
+        return self.__class__, (self.name, self.reason)
 
 
 class _NameTransformerMiddleware(BlockMiddleware, abc.ABC):
